@@ -429,46 +429,42 @@ Definition plan_create (co : copts) : option mem * result * list event :=
 Definition ev_zero (d : rdesc) : list event :=
   EvSeek (Z.to_nat (d_off d)) :: write_if_nonempty (zeros (Z.to_nat (d_size d))).
 
-(* the loop of DeleteObjects over the descriptor slice; returns the new header
-   and descriptors, whether anything was selected, the calls issued, and the
-   selector error that stopped it, if any *)
+(* the second loop of DeleteObjects: delete every in-use descriptor the
+   selector holds on (the first loop has established that the selector fails
+   on none); returns the new header and descriptors, whether anything was
+   deleted, and the calls issued *)
 Fixpoint delete_loop (sel : selector) (zero : bool) (rds : list rdesc) (h : header)
-         (selected : bool) (evs : list event)
-  : header * list rdesc * bool * list event * option err :=
+         (evs : list event) : header * list rdesc * list event :=
   match rds with
-  | [] => (h, [], selected, evs, None)
+  | [] => (h, [], evs)
   | d :: r =>
-      if negb (d_used d) then
-        let '(h', r', s', e', x) := delete_loop sel zero r h selected evs in
-        (h', d :: r', s', e', x)
+      if d_used d && (match sel_eval sel d with SMatch true => true | _ => false end) then
+        let evs1 := if zero then evs ++ ev_zero d else evs in
+        let h1 := set_free h (h_free h + 1) in
+        let h2 := if is_partition_of_type d PartPrimSys then set_arch h1 arch_unknown else h1 in
+        let '(h', r', e') := delete_loop sel zero r h2 evs1 in
+        (h', zero_desc :: r', e')
       else
-        match sel_eval sel d with
-        | SErr e => (h, d :: r, selected, evs, Some e)
-        | SMatch false =>
-            let '(h', r', s', e', x) := delete_loop sel zero r h selected evs in
-            (h', d :: r', s', e', x)
-        | SMatch true =>
-            let evs1 := if zero then evs ++ ev_zero d else evs in
-            let h1 := set_free h (h_free h + 1) in
-            let h2 := if is_partition_of_type d PartPrimSys then set_arch h1 arch_unknown else h1 in
-            let '(h', r', s', e', x) := delete_loop sel zero r h2 true evs1 in
-            (h', zero_desc :: r', s', e', x)
-        end
+        let '(h', r', e') := delete_loop sel zero r h evs in
+        (h', d :: r', e')
   end.
 
-(* FileImage.DeleteObjects (after the "fix:" commit: minIDs recomputed) *)
+(* FileImage.DeleteObjects (after the "fix:" commits: objects are selected
+   before anything is modified; minIDs recomputed; the storage is resized, not
+   truncated, when compacting) *)
 Definition plan_delete (m : mem) (sel : selector) (zero compact : bool) (o : topt) (now : Z)
   : mem * result * list event :=
   let t := resolve_time (m_hdr m) o now in
-  match delete_loop sel zero (m_rds m) (m_hdr m) false [] with
-  | (h1, rds1, _, evs, Some e) => (mkM h1 rds1 (m_minids m), Err e, evs)
-  | (_, _, false, _, None) => (m, Err ENotFound, [])
-  | (h1, rds1, true, evs, None) =>
+  match collect (sel_eval sel) (m_rds m) with
+  | inr e => (m, Err e, [])
+  | inl [] => (m, Err ENotFound, [])
+  | inl _ =>
+      let '(h1, rds1, evs) := delete_loop sel zero (m_rds m) (m_hdr m) [] in
       let mids := populate_minids rds1 in
       let h2 := set_mtime h1 t in
       let h3 := if compact then set_datasize h2 (calc_data_size h2 rds1) else h2 in
       let evs1 := if compact
-                  then evs ++ [EvTrunc (Z.to_nat (h_dataoff h3 + h_datasize h3))]
+                  then evs ++ [EvResize (Z.to_nat (h_dataoff h3 + h_datasize h3))]
                   else evs in
       (mkM h3 rds1 mids, Ok, evs1 ++ ev_table h3 rds1 ++ ev_header h3)
   end.
